@@ -91,6 +91,44 @@ const STRINGS: &[&str] = &[
     "- looks like a list", "key: looks like a map\nsecond: line", "", "null", "123",
 ];
 
+/// text over an alphabet of blanks, line breaks, indicators and letters; sometimes long enough to fold,
+/// with blanks and tabs next to the places where a line may be broken
+fn rand_text(rng: &mut Rng) -> String {
+    if rng.chance(1, 2) {
+        return rng.pick(STRINGS).to_string();
+    }
+    let mut s = String::new();
+    if rng.chance(1, 2) {
+        let n = rng.below(9);
+        for _ in 0..n {
+            s.push(*rng.pick(&[' ', ' ', '\t', '\n', '\n', 'a', 'b', ':', '#', '-', 'é']));
+        }
+    } else {
+        let nwords = 2 + rng.below(12);
+        for wi in 0..nwords {
+            if wi > 0 {
+                s.push_str(*rng.pick(&[" ", " ", " ", "  ", " \t", "\t", "\t ", "\n", "   "]));
+            }
+            let longw = rng.chance(1, 6);
+            let wl = 1 + rng.below(if longw { 40 } else { 9 });
+            for _ in 0..wl {
+                s.push(*rng.pick(&['a', 'b', 'c', 'é', '-']));
+            }
+        }
+        if rng.chance(1, 6) {
+            s.push_str(*rng.pick(&["\n", "\n\n", " ", "\t"]));
+        }
+    }
+    s
+}
+fn rand_comment(rng: &mut Rng) -> String {
+    if rng.chance(1, 2) {
+        return rng.pick(COMMENTS).to_string();
+    }
+    let n = rng.below(10);
+    (0..n).map(|_| *rng.pick(&['a', ' ', '#', ':', '-', '\n', '\r', '\0', '\t', '\u{7}', '\u{1b}', '\u{85}', '\u{2028}', '\u{2029}', '\u{feff}', '\u{c}', '[', '"', '\''])).collect()
+}
+
 fn gen_v(rng: &mut Rng, depth: usize, in_flow: bool) -> V {
     let leaf = depth == 0 || rng.chance(2, 5);
     let base = if leaf {
@@ -98,9 +136,9 @@ fn gen_v(rng: &mut Rng, depth: usize, in_flow: bool) -> V {
             0 => V::Null,
             1 => V::Bool(rng.chance(1, 2)),
             2 => V::Int(rng.below(2000) as i64 - 1000),
-            3 => V::Lit(rng.pick(STRINGS).to_string()),
-            4 => V::Fold(rng.pick(STRINGS).replace('\n', " ")),
-            _ => V::Str(rng.pick(STRINGS).to_string()),
+            3 => V::Lit(rand_text(rng)),
+            4 => V::Fold(rand_text(rng).replace('\n', " ")),
+            _ => V::Str(rand_text(rng)),
         }
     } else {
         let n = rng.below(4);
@@ -113,9 +151,10 @@ fn gen_v(rng: &mut Rng, depth: usize, in_flow: bool) -> V {
         if flow { V::Flow(Box::new(inner)) } else { inner }
     };
     match rng.below(8) {
-        0 => V::Commented(Box::new(base), rng.pick(COMMENTS).to_string()),
+        0 => V::Commented(Box::new(base), rand_comment(rng)),
         1 => V::SpaceAfter(Box::new(base)),
-        2 => V::Commented(Box::new(V::SpaceAfter(Box::new(base))), rng.pick(COMMENTS).to_string()),
+        2 => V::Commented(Box::new(V::SpaceAfter(Box::new(base))), rand_comment(rng)),
+        3 if rng.chance(1, 3) => V::SpaceAfter(Box::new(V::SpaceAfter(Box::new(base)))),
         _ => base,
     }
 }
@@ -134,6 +173,16 @@ fn folded_reading(s: &str) -> String {
         }
     }
     out
+}
+/// recorded finding F49: an explicit literal block around exactly one line break, followed by more content
+fn has_single_break_literal(v: &V) -> bool {
+    match v {
+        V::Lit(s) => s == "\n",
+        V::Seq(i) => i.iter().any(has_single_break_literal),
+        V::Map(e) => e.iter().any(|(_, x)| has_single_break_literal(x)),
+        V::Flow(x) | V::Commented(x, _) | V::SpaceAfter(x) => has_single_break_literal(x),
+        _ => false,
+    }
 }
 fn has_explicit_fold(v: &V) -> bool {
     match v {
@@ -219,7 +268,7 @@ pub fn run(ctx: &mut Ctx) {
                 continue; // empty line
             }
             if rng.chance(1, 8) {
-                s.push(' ');
+                s.push(if rng.chance(1, 4) { '\t' } else { ' ' });
             }
             let nwords = 1 + rng.below(14);
             for wi in 0..nwords {
@@ -230,7 +279,7 @@ pub fn run(ctx: &mut Ctx) {
                 let longw = rng.chance(1, 10);
                 let wl = 1 + rng.below(if longw { 30 } else { 8 });
                 for _ in 0..wl {
-                    s.push(*rng.pick(&['a', 'b', 'z', 'é', '日', '-', ':', '#']));
+                    s.push(*rng.pick(&['a', 'b', 'z', 'é', '日', '-', ':', '#', 'a', 'b', '\t']));
                 }
             }
             if rng.chance(1, 10) {
@@ -247,7 +296,7 @@ pub fn run(ctx: &mut Ctx) {
         // S: what a reader joins is the original text
         ctx.direct_evaluations += 1;
         let doc = format!(">-\n{}", out.lines().map(|l| format!("  {l}\n")).collect::<String>());
-        if !s.split('\n').any(|l| l.is_empty() || l.starts_with(' ')) && s.split('\n').count() == 1 {
+        if !s.split('\n').any(|l| l.is_empty() || l.starts_with([' ', '\t'])) && s.split('\n').count() == 1 {
             match serde_saphyr::from_str::<String>(&doc) {
                 Ok(b) if b == s => {}
                 other => ctx.fail("folding-changes-text", format!("{s:?} wrapped at {w} as {out:?} reads back {other:?}"), json!({"kind": "fold", "s": s, "w": w})),
@@ -256,7 +305,24 @@ pub fn run(ctx: &mut Ctx) {
         ctx.case(format!("CLead {} {}", coq::s(&s), hooks::wrapping_first_line_leading_spaces(&s)), s.starts_with(' '), json!({"kind": "lead", "s": s}));
     }
     // ---- K + S: comments
-    for c in COMMENTS {
+    let mut comments: Vec<String> = COMMENTS.iter().map(|c| c.to_string()).collect();
+    for _ in 0..(if quick { 300 } else { 5000 }) {
+        comments.push(rand_comment(&mut rng));
+    }
+    for c in &comments {
+        // a comment must not cut off what follows the commented value either
+        #[derive(serde::Serialize)]
+        struct Two {
+            a: Commented<i32>,
+            b: i32,
+        }
+        ctx.direct_evaluations += 1;
+        let text = serde_saphyr::to_string(&Two { a: Commented(5, c.clone()), b: 7 }).unwrap_or_default();
+        let want = Tree::Map(vec![(Tree::Str("a".into()), Tree::U64(5)), (Tree::Str("b".into()), Tree::U64(7))]);
+        match serde_saphyr::from_str::<Tree>(&text) {
+            Ok(t) if t == want => {}
+            other => ctx.fail("comment-alters-document", format!("{{a: Commented(5, {c:?}), b: 7}} emitted {text:?}, read back {other:?}"), json!({"kind": "comment2", "comment": c})),
+        }
         for extra in ["", "\n", "\r", " x\r\n y", "\u{85}"] {
             let comment = format!("{c}{extra}");
             let text = serde_saphyr::to_string(&Commented(5, comment.clone())).unwrap_or_default();
@@ -302,7 +368,7 @@ pub fn run(ctx: &mut Ctx) {
                 if b != &want && !(matches!(o.empty_as_braces, false)) {
                     ctx.fail("bare-document-differs-from-value", format!("[{oname}] {bare:?} reads as {b:?}, value is {want:?}"), replay.clone());
                 } else if !eq_mod_fold(d, b, &v) {
-                    let class = if has_explicit_fold(&v) && !eq_mod_fold(d, b, &v) { "wrapper-changes-data" } else { "wrapper-changes-data" };
+                    let class = if has_single_break_literal(&v) { "F49:literal-single-line-break" } else { "wrapper-changes-data" };
                     ctx.fail(class, format!("[{oname}] decorated {deco:?} reads as {d:?}; bare {bare:?} reads as {b:?}"), replay.clone());
                 }
             }
@@ -311,7 +377,12 @@ pub fn run(ctx: &mut Ctx) {
         }
     }
     // typed wrappers read back the bare value
-    for s in STRINGS {
+    let mut strings: Vec<String> = STRINGS.iter().map(|s| s.to_string()).collect();
+    for _ in 0..(if quick { 500 } else { 10000 }) {
+        strings.push(rand_text(&mut rng));
+    }
+    for s in &strings {
+        let s = &s.as_str();
         ctx.direct_evaluations += 2;
         let t = serde_saphyr::to_string(&LitString(s.to_string())).unwrap_or_default();
         match serde_saphyr::from_str::<LitString>(&t) {
@@ -329,12 +400,33 @@ pub fn run(ctx: &mut Ctx) {
             }
         }
     }
-    for s in ["x\n\n", "x\n", "x", "a b\n\n\n"] {
-        ctx.direct_evaluations += 1;
+    let mut lits: Vec<String> = ["x\n\n", "x\n", "x", "a b\n\n\n", "\n", "\n\n", "\n\n\n", " ", "   \nfoo", "\t", " \n"].iter().map(|s| s.to_string()).collect();
+    for _ in 0..(if quick { 300 } else { 5000 }) {
+        lits.push(rand_text(&mut rng));
+    }
+    for s in &lits {
+        ctx.direct_evaluations += 3;
         let t = serde_saphyr::to_string(&SpaceAfter(LitString(s.to_string()))).unwrap_or_default();
         match serde_saphyr::from_str::<String>(&t) {
-            Ok(b) if b == s => {}
+            Ok(b) if b == *s => {}
             other => ctx.fail("F8:space-after-block-scalar", format!("SpaceAfter(LitString({s:?})) emitted {t:?}, read back {other:?}"), json!({"kind": "space_after", "s": s})),
+        }
+        // ... as the last element of a wrapped sequence, and as a field followed by another one
+        let t = serde_saphyr::to_string(&SpaceAfter(vec![LitString("x".into()), LitString(s.to_string())])).unwrap_or_default();
+        match serde_saphyr::from_str::<Vec<String>>(&t) {
+            Ok(b) if b.len() == 2 && b[1] == *s && b[0] == "x" => {}
+            other => ctx.fail("F8:space-after-block-scalar", format!("SpaceAfter([LitString(x), LitString({s:?})]) emitted {t:?}, read back {other:?}"), json!({"kind": "space_after_seq", "s": s})),
+        }
+        #[derive(serde::Serialize)]
+        struct Note {
+            note: SpaceAfter<LitString>,
+            other: usize,
+        }
+        let t = serde_saphyr::to_string(&Note { note: SpaceAfter(LitString(s.to_string())), other: 0 }).unwrap_or_default();
+        let want = Tree::Map(vec![(Tree::Str("note".into()), Tree::Str(s.to_string())), (Tree::Str("other".into()), Tree::U64(0))]);
+        match serde_saphyr::from_str::<Tree>(&t) {
+            Ok(b) if b == want => {}
+            other => ctx.fail(if s == "\n" { "F49:literal-single-line-break" } else { "literal-wrapper-round-trip" }, format!("{{note: SpaceAfter(LitString({s:?})), other: 0}} emitted {t:?}, read back {other:?}"), json!({"kind": "space_after_field", "s": s})),
         }
     }
 }
